@@ -1280,6 +1280,20 @@ fn extension_feasible(m: &SrcModel, lm: &rooc::LinearModel, w: &[Q]) -> Option<b
     let mut rows: Vec<Row> = Vec::new();
     for c in lm.constraints() {
         let coefs = c.coefficients();
+        if coefs.iter().any(|a| !a.is_finite()) || c.rhs().is_nan() {
+            return None; // not a row exact arithmetic can speak about: undecided
+        }
+        if c.rhs().is_infinite() {
+            let vacuous = match c.constraint_type() {
+                Comparison::LessOrEqual | Comparison::Less => c.rhs() > 0.0,
+                Comparison::GreaterOrEqual | Comparison::Greater => c.rhs() < 0.0,
+                Comparison::Equal => false,
+            };
+            if vacuous {
+                continue;
+            }
+            return Some(false); // `lhs >= +inf` and the like: no point satisfies it
+        }
         // constant part contributed by the fixed declared variables, exactly
         let mut fixed = Q::ZERO;
         let mut scale = c.rhs().abs().max(1.0);
@@ -1319,6 +1333,7 @@ fn extension_feasible(m: &SrcModel, lm: &rooc::LinearModel, w: &[Q]) -> Option<b
         obj: vec![0.0; n],
         offset: 0.0,
         sense: Sense::Satisfy,
+        decor: Vec::new(),
     };
     let verdict = catch_unwind(AssertUnwindSafe(|| oracle::decide(&g).verdict));
     match verdict {
@@ -1908,17 +1923,44 @@ fn gen_src_model_once(rng: &mut Rng) -> (String, SrcModel) {
                 hi: rng.range(4, 9) as i32,
             };
             let k = rng.range(1, 5);
-            push(
-                &mut cons,
-                SExp::MulL(c, Box::new(SExp::Var(0))),
-                if rng.chance(1, 2) { Cmp::Le } else { Cmp::Ge },
-                SExp::Num(Dec { n: c.n * k, d: c.d }),
-            );
+            let term = SExp::MulL(c, Box::new(SExp::Var(0)));
+            let bound = SExp::Num(Dec { n: c.n * k, d: c.d });
+            let le = rng.chance(1, 2);
+            let mut label = "integer-rounding";
+            if rng.chance(1, 2) {
+                // the same bound reached through the reverse rule of a piecewise operator
+                // (abs: upper side; max: upper side; min: lower side) instead of an affine row
+                label = "integer-rounding-through-piecewise";
+                let other = if n > 1 { SExp::Var(1) } else { SExp::Num(Dec::int(k)) };
+                if le {
+                    let lhs = if rng.chance(1, 2) {
+                        SExp::Abs(Box::new(term))
+                    } else if rng.chance(1, 2) {
+                        SExp::Max(vec![term, other])
+                    } else {
+                        SExp::Max(vec![other, term])
+                    };
+                    push(&mut cons, lhs, Cmp::Le, bound);
+                } else if rng.chance(1, 2) {
+                    push(&mut cons, SExp::Min(vec![term, other]), Cmp::Ge, bound);
+                } else {
+                    // min{-c x, y} >= -c k  <=>  x <= k (and y >= -c k)
+                    let neg = SExp::MulL(Dec { n: -c.n, d: c.d }, Box::new(SExp::Var(0)));
+                    push(
+                        &mut cons,
+                        SExp::Min(vec![neg, other]),
+                        Cmp::Ge,
+                        SExp::Num(Dec { n: -c.n * k, d: c.d }),
+                    );
+                }
+            } else {
+                push(&mut cons, term, if le { Cmp::Le } else { Cmp::Ge }, bound);
+            }
             for _ in 0..rng.usize(0, 2) {
                 let l2 = affine(rng, n, true, 2);
                 push(&mut cons, l2, cmp3(rng), rhs_const(rng, true));
             }
-            "integer-rounding"
+            label
         }
     };
     (
